@@ -41,6 +41,11 @@
 // the retry; after 12 first-round expiries at one site the remaining p inputs are skipped
 // ("skipped:site-cap:<site>").
 //
+// Generator d (decl.go): declaration-level programs for the checker stage - graphs of typedefs,
+// classes, mixins, interfaces, modules and constants referring to each other in every name form
+// (plain, M::X, ::M::X, nested), with cycles, forward references, duplicates and missing names on
+// purpose, every entity used afterwards; 1 s of CPU in the first round, 3 s in the retry.
+//
 // Corpus / -input file format (corpus/C03.front.txt): one input per line, either
 // "text:<escaped>" (escapes \\ \n \t \r \xHH, everything else literal) or "hex:<hex bytes>";
 // lines starting with '#' are comments.
@@ -544,6 +549,11 @@ func hangSite(dump string) string {
 			n++
 		}
 		common = common[:n]
+	}
+	// a helper of the data-structure package (ds.Set.Contains ...) that happens to be on top in every
+	// sample is not the loop: blame its caller
+	for len(common) > 1 && strings.HasPrefix(common[len(common)-1].site, "ds/") {
+		common = common[:len(common)-1]
 	}
 	if len(common) == 0 {
 		return stage + ":unknown"
@@ -1533,7 +1543,12 @@ func driverMain(o *hx.Opts) {
 		return "lprd"
 	}
 	n := o.N
-	if o.Tier == "thorough" {
+	declOnly := strings.Contains(o.Extra, "declonly") // development aid: generator d alone
+	if declOnly {
+		n = 0
+	}
+	if declOnly {
+	} else if o.Tier == "thorough" {
 		// exhaustive part: all 1-3 token inputs, joined with a space and with nothing
 		k := 0
 		for _, sep := range []string{" ", ""} {
@@ -1602,7 +1617,7 @@ func driverMain(o *hx.Opts) {
 	if o.Tier != "thorough" {
 		nParse, nLit = o.N/12, o.N/8
 	}
-	if strings.Contains(o.Extra, "noprefix") {
+	if strings.Contains(o.Extra, "noprefix") || declOnly {
 		lexIn, nParse, nLit = nil, 0, 0
 	}
 	for _, b := range lexIn {
@@ -1619,6 +1634,28 @@ func driverMain(o *hx.Opts) {
 	}
 	for k := 0; k < nLit; k++ {
 		addPrefixes(pg.literalSnippet())
+	}
+	// d = declaration-level programs for the checker (decl.go): graphs of typedefs / classes / mixins /
+	// interfaces / modules / constants with references in every name form, ill-formed on purpose
+	// (cycles, forward references, duplicates, missing names), every entity used afterwards. Its own
+	// Rng. A tiny program is checked in ~30 ms: 1 s of CPU in the first round, 3 s alone in the retry.
+	dr := hx.NewRng(o.Seed ^ 0x6465636c6172)
+	nd := o.N / 10
+	if o.Tier == "thorough" {
+		nd = o.N / 4
+	}
+	if strings.Contains(o.Extra, "nodecl") {
+		nd = 0
+	}
+	for k := 0; k < nd; k++ {
+		add("d", declProgram(dr), "lpcd")
+		jobs[len(jobs)-1].cpu = 1.0
+	}
+	if os.Getenv("C03_DUMP") != "" { // debugging aid: print the inputs instead of running them
+		for _, j := range jobs {
+			fmt.Printf("### %s\n%s\n", j.id, j.src)
+		}
+		return
 	}
 	res := runAll(jobs)
 	for i, j := range jobs {
